@@ -4,6 +4,7 @@ package sim
 // commit / merge / prune run through the in-process CLI.
 
 import (
+	"bytes"
 	"encoding/json"
 	"fmt"
 	"net/http"
@@ -26,7 +27,7 @@ type C13Plan struct {
 	SchedSeed uint64    `json:"sched_seed"`
 }
 
-var c13Ops = []string{"commit-existing", "commit-new", "merge-ff", "merge-noff", "merge-real", "prune", "fetch", "pull"}
+var c13Ops = []string{"commit-existing", "commit-new", "merge-ff", "merge-noff", "merge-real", "prune", "fetch", "pull", "fetch", "pull", "merge-shallow-ff", "merge-shallow-noff"}
 
 func genDisjointEdits(r *Rand, cols, pk []string, nrows int) (e1, e2 []Edit) {
 	pkIdx, _ := pkIndices(cols, pk)
@@ -125,7 +126,8 @@ func execC13(t *testing.T, raw json.RawMessage, res *Result) {
 		return true
 	}
 	pkArg := strings.Join(pk, ",")
-	if p.Op != "fetch" && p.Op != "pull" {
+	remoteOp := p.Op == "fetch" || p.Op == "pull" || strings.HasPrefix(p.Op, "merge-shallow")
+	if !remoteOp {
 		if !must("commit", "main", f0, "base", "-p", pkArg) {
 			return
 		}
@@ -151,7 +153,7 @@ func execC13(t *testing.T, raw json.RawMessage, res *Result) {
 			return
 		}
 		opArgs = []string{"merge", "main", "alt", "-n", nw}
-	case "fetch", "pull":
+	case "fetch", "pull", "merge-shallow-ff", "merge-shallow-noff":
 		// a remote R served by the reference server over simnet; L has synced once, R moved on
 		R, err := NewNode(t, "R", w)
 		if err != nil {
@@ -192,7 +194,28 @@ func execC13(t *testing.T, raw json.RawMessage, res *Result) {
 		if !rmust("commit", "main", rf1, "r second", "-p", pkArg) || !rmust("commit", "dev", rf2, "r dev", "-p", pkArg) {
 			return
 		}
-		if p.Op == "fetch" {
+		// a tag on the remote that no refspec covers: fetch follows it once its commit is local
+		if (p.SchedSeed>>1)%4 != 0 {
+			if db, err := R.OpenRef(); err == nil {
+				if h, err := ref.GetHead(db, []string{"main", "dev"}[(p.SchedSeed>>3)%2]); err == nil {
+					ref.SaveTag(db, "v1", h)
+					res.probe("remote_tag_to_follow", 1)
+				}
+				db.Close()
+			}
+		}
+		if strings.HasPrefix(p.Op, "merge-shallow") {
+			// origin/main^ is fetched without its table (--depth 1): merging it into main must be
+			// refused, whatever the fast-forward mode, and main must stay on a commit with a table
+			if !rmust("commit", "main", rf2, "r third", "-p", pkArg) ||
+				!must("fetch", "origin", "refs/heads/main:refs/remotes/origin/main", "--depth", "1") {
+				return
+			}
+			opArgs = []string{"merge", "main", "origin/main^", "-n", nw}
+			if p.Op == "merge-shallow-noff" {
+				opArgs = append(opArgs, "--no-ff")
+			}
+		} else if p.Op == "fetch" {
 			opArgs = []string{"fetch", "origin"}
 		} else {
 			opArgs = []string{"pull", "main", "origin", "refs/heads/main:refs/remotes/origin/main", "-n", "1"}
@@ -240,6 +263,30 @@ func execC13(t *testing.T, raw json.RawMessage, res *Result) {
 	logStart := w.LogLen()
 	r0 := runOp()
 	if bubbleProblems(res, r0.Out, "wrgl "+p.Op) {
+		return
+	}
+	if strings.HasPrefix(p.Op, "merge-shallow") {
+		now := n.Capture()
+		refs, err := RefsOf(now.RefDB)
+		if err != nil {
+			res.Invalid("refs: %v", err)
+			return
+		}
+		preRefs, _ := RefsOf(pre.RefDB)
+		if c, d := CheckRepoInvariants(now.Objs, refs); c != "" {
+			res.Violate("shallow-merge:"+c, "`wrgl %s` (other commit present without its table; err=%v): %s", strings.Join(opArgs, " "), r0.Err, d)
+			return
+		}
+		if r0.Err == nil {
+			res.Violate("shallow-merge-accepted", "`wrgl %s` succeeded although the other commit's table is not in the repository: %s", strings.Join(opArgs, " "), r0.Stdout)
+			return
+		}
+		if !bytes.Equal(refs["heads/main"], preRefs["heads/main"]) {
+			res.Violate("shallow-merge-moved-branch", "`wrgl %s` was refused (%v) but heads/main moved", strings.Join(opArgs, " "), r0.Err)
+			return
+		}
+		res.probe("op_"+p.Op, 1)
+		res.Nontrivial = true
 		return
 	}
 	if r0.Err != nil {
